@@ -38,7 +38,7 @@ func init() {
 		ID:    "C09",
 		Title: "Path selectors evaluate per the documented grammar and fail only with errors",
 		Level: "exploration",
-		Rule: "a function behind a continuation that is NULL; zero-padded numeric strings, fractions and numbers under the reshape pipe. a share of the selectors quotes every key (or every other key); phase 'registry' (one process per case): a function registered under a built-in name is the one `fn=>` applies. phase 'bytes' evaluates every text twice (same error-ness, same value). object keys include texts that look like steps (`[0]`, `{id}`, `x::y`, `a|b`, `keep=>x` ...) and must be literal when quoted. phase 'grammar': each case = a random JSON-like document (objects/arrays nested to depth 5, ragged and multi-dimensional arrays, keys with dots and spaces) x a selector of 1..6 steps generated from the documented grammar by a type-directed walk over the document " +
+		Rule: "keys that differ in blanks only; ranges with a bound left out. a function behind a continuation that is NULL; zero-padded numeric strings, fractions and numbers under the reshape pipe. a share of the selectors quotes every key (or every other key); phase 'registry' (one process per case): a function registered under a built-in name is the one `fn=>` applies. phase 'bytes' evaluates every text twice (same error-ness, same value). object keys include texts that look like steps (`[0]`, `{id}`, `x::y`, `a|b`, `keep=>x` ...) and must be literal when quoted. phase 'grammar': each case = a random JSON-like document (objects/arrays nested to depth 5, ragged and multi-dimensional arrays, keys with dots and spaces) x a selector of 1..6 steps generated from the documented grammar by a type-directed walk over the document " +
 			"(keys, missing keys, keys mapped over arrays, [i], [i:j:..], each, keep=>, (m:n)/begin/end, {k|type,..}, quoted keys, ::, mix=> / distinct=> / a harness-registered function, and deliberately wrong shapes / out-of-range bounds), plus the README forms verbatim; " +
 			"ExecReader is called twice (cold and warm parse cache, second time on another copy) and must agree with the reference selector evaluator in value and in error-ness, never panic, and leave the document unchanged. " +
 			"Phase 'bytes': arbitrary byte strings and mutated selectors - totality only (no panic, document unchanged). Non-trivial = a successful evaluation with at least 2 steps whose value is not NULL, or an expected error; distinct = distinct (document, selector).",
